@@ -277,6 +277,11 @@ def out_index(path, view):
                 if is_tls and a < tls_base:
                     a += tls_base          # TLS symbol values may be segment-relative: normalise to addresses
                 marks.append((a, a + s.size, f"sb_{k}_{j}", is_tls))
+    # COMMON symbols have no input section (so no marker): their storage is identified by the symbol itself. Where it lands in
+    # .bss may differ between the direct link and the link of the -r output; what must not change is WHICH storage a site denotes.
+    for y in e.symtab():
+        if y.shndx != SHN_UNDEF and y.bind != 0 and y.name.startswith("cm_") and y.size:
+            marks.append((y.value, y.value + y.size, y.name, False))
     return {"elf": e, "addr": addr, "marks": marks, "tp": tp, "tls_base": tls_base, "markaddr": {m[2]: m[0] for m in marks}}
 
 
